@@ -9,8 +9,8 @@ import glob, json, os, re, shutil, subprocess, sys, time
 
 ROOT = "/verif"
 RELATED = {"C01": ["C01", "C15"], "C02": ["C02", "C15"], "C09": ["C09", "C05", "C15"], "C15": ["C15", "C01", "C05"],
-           "C05": ["C05", "C09"], "C17": ["C17", "C05"], "C03": ["C03", "C10"], "C10": ["C10", "C03"],
-           "C04": ["C04"], "C06": ["C06"], "C07": ["C07"], "C08": ["C08"], "C11": ["C11"], "C12": ["C12"],
+           "C05": ["C05", "C09", "C15"], "C17": ["C17", "C05"], "C03": ["C03", "C10"], "C10": ["C10", "C03"],
+           "C04": ["C04"], "C06": ["C06"], "C07": ["C07"], "C08": ["C08", "C10"], "C11": ["C11"], "C12": ["C12"],
            "C13": ["C13"], "C14": ["C14"], "C16": ["C16", "C15"], "C18": ["C18"], "C19": ["C19"], "C20": ["C20"]}
 
 def sh(cmd, **kw):
